@@ -1,5 +1,7 @@
 package xmp
 
+import "time"
+
 // C13 - XMP properties are extracted exactly, in attribute or element form alike.
 // Packets have a concrete token structure; property values are solver variables over the XML character-data alphabet.
 
@@ -421,6 +423,82 @@ func zzC13_uintprops() {
 	want := zzDec(d)
 	if want < p.max {
 		zzAssert(p.get(&x) == want, "an unsigned property is reported with its decimal value")
+	}
+	zzAssert(x.Tiff.Model == "md", "the property after it is reported too")
+	zzReached("end")
+}
+
+// array items that carry an xml:lang attribute (the usual form of dc:description, dc:title and dc:rights): the attribute
+// is not an item; dc:title collects the language tags separately
+func zzC13_lang() {
+	zzQuoteClass = 1
+	l1, l2 := zzVal("l1", 2), zzVal("l2", 2)
+	a, b2, c, d, e := zzVal("a", 2), zzVal("b", 2), zzVal("c", 2), zzVal("d", 2), zzVal("e", 2)
+	zzQuoteClass = 0
+	pk := zzCat(zzHead, `<rdf:Description rdf:about="">`,
+		`<dc:description><rdf:Alt><rdf:li xml:lang="`, l1, `">`, a, `</rdf:li></rdf:Alt></dc:description>`,
+		`<dc:creator><rdf:Seq><rdf:li>`, b2, `</rdf:li><rdf:li xml:lang="`, l2, `">`, c, `</rdf:li></rdf:Seq></dc:creator>`,
+		`<dc:subject><rdf:Bag><rdf:li xml:lang="`, l1, `">`, d, `</rdf:li></rdf:Bag></dc:subject>`,
+		`<dc:title><rdf:Alt><rdf:li xml:lang="`, l2, `">`, e, `</rdf:li></rdf:Alt></dc:title>`,
+		`</rdf:Description>`, zzTail)
+	x, err := ParseXmp(zzReaderOf(pk))
+	zzAssert(err == nil, "a well-formed packet with language-tagged items parses without error")
+	zzAssert(len(x.DC.Description) == 1 && zzStrEq(x.DC.Description[0], a), "dc:description has the one item, not its xml:lang")
+	zzAssert(len(x.DC.Creator) == 2 && zzStrEq(x.DC.Creator[0], b2) && zzStrEq(x.DC.Creator[1], c), "dc:creator has the two items in document order")
+	zzAssert(len(x.DC.Subject) == 1 && zzStrEq(x.DC.Subject[0], d), "dc:subject has the one item")
+	zzAssert(len(x.DC.Title) == 1 && zzStrEq(x.DC.Title[0], e) && len(x.DC.TitleLang) == 1 && zzStrEq(x.DC.TitleLang[0], l2), "dc:title has the item, its language apart")
+	zzReached("end")
+}
+
+// boundary values of the numeric properties: the maximum of the type is a value like any other; xmp:Rating is signed
+// (-1 = rejected)
+func zzC13_numedge_N() int { return 2 }
+func zzC13_numedge() {
+	form := zzPart()
+	zzQuoteClass = 1 - form
+	d := zzDig("d", 1)
+	neg := zzBool("neg")
+	rating := []byte{d[0]}
+	if neg {
+		rating = []byte{'-', '1'}
+	}
+	x, err := ParseXmp(zzReaderOf(zzOneProp("xmp:Rating", rating, form)))
+	zzAssert(err == nil, "a well-formed packet parses without error")
+	if neg {
+		zzAssert(x.Basic.Rating == -1, "xmp:Rating -1 (rejected) is reported as -1")
+	} else {
+		zzAssert(int(x.Basic.Rating) == int(d[0]-'0'), "xmp:Rating 0..9 is reported as written")
+	}
+	y, _ := ParseXmp(zzReaderOf(zzOneProp("exif:MeteringMode", []byte("255"), form)))
+	zzAssert(uint64(y.Exif.MeteringMode) == 255, "exif:MeteringMode 255 (Other) is reported as 255")
+	z, _ := ParseXmp(zzReaderOf(zzOneProp("exif:PixelXDimension", []byte("4294967295"), form)))
+	zzAssert(uint64(z.Exif.PixelXDimension) == 4294967295, "exif:PixelXDimension 4294967295 is reported as written")
+	zzReached("end")
+}
+
+// date-valued properties: the reported instant is the result of the first of the three documented layouts (with zone
+// "Z"/"+hh:mm", with a fraction, plain) that accepts the text. time.Parse is uninterpreted in the machine, so the
+// obligation is that the reader hands the same text to the same layouts in the same order (term identity); natively
+// the instants are compared.
+func zzSpecDate(s string) (time.Time, bool) {
+	for _, l := range []string{"2006-01-02T15:04:05Z07:00", "2006-01-02T15:04:05.00", "2006-01-02T15:04:05"} {
+		if t, err := time.Parse(l, s); err == nil {
+			return t, true
+		}
+	}
+	return time.Time{}, false
+}
+
+func zzC13_dates_N() int { return 40 }
+func zzC13_dates() {
+	prop := []string{"xmp:CreateDate", "xmp:ModifyDate", "xmp:MetadataDate", "exif:DateTimeOriginal"}[zzPart()%4]
+	form := zzPart() / 4 % 2
+	val := []string{"2019-03-21T11:18:20Z", "2019-03-21T11:18:20+05:30", "2019-03-21T11:18:20-06:00", "2019-03-21T11:18:20.50", "2019-03-21T11:18:20"}[zzPart()/8]
+	x, err := ParseXmp(zzReaderOf(zzOneProp(prop, []byte(val), form)))
+	zzAssert(err == nil, "a well-formed packet parses without error")
+	got := []time.Time{x.Basic.CreateDate, x.Basic.ModifyDate, x.Basic.MetadataDate, x.Exif.DateTimeOriginal}[zzPart()%4]
+	if want, ok := zzSpecDate(val); ok {
+		zzAssert(zzSameTime(got, want), "a date-valued property is the instant written, by the first documented layout that accepts it")
 	}
 	zzAssert(x.Tiff.Model == "md", "the property after it is reported too")
 	zzReached("end")
